@@ -110,7 +110,7 @@ theorem lzma2Loop_fuel : ∀ (fuel : Nat) (s : St), CopyInv s → s.inPos ≤ s.
         have hb := hbyte (by rw [hseq]; decide)
         refine cont _ (Cr.of_byte hb rfl rfl rfl rfl rfl rfl rfl) (fun _ => by simp [setL2]) rfl ?_
         unfold mu; simp only [setL2, hseq]
-        split <;> simp <;> omega
+        by_cases hn : s.l2.nextSeq = L2Seq.lzma <;> simp [hn] <;> omega
       · -- SEQ_PROPERTIES
         next hseq =>
         have hb := hbyte (by rw [hseq]; decide)
@@ -135,7 +135,9 @@ theorem lzma2Loop_fuel : ∀ (fuel : Nat) (s : St), CopyInv s → s.inPos ≤ s.
         have hseq1 : s1.l2.seq = .lzma := by rw [hl2']; exact hseq
         simp only []
         split
-        · exact ⟨by simp, fun h => by rw [hseq1] at h; cases h, fun h => by left; rw [← hnr']; exact h⟩
+        · refine ⟨by simp, fun h => ?_, fun h => ?_⟩
+          · rw [hseq1] at h; cases h
+          · left; rw [← hnr']; exact h
         · split
           · refine ⟨hret', fun h => ?_, fun h => by left; rw [← hnr']; exact h⟩
             simp [setL2, hseq1] at h
@@ -171,6 +173,8 @@ theorem lzma2Loop_fuel : ∀ (fuel : Nat) (s : St), CopyInv s → s.inPos ≤ s.
           rw [e2] at heq
           simp at heq
           refine cont _ (hw'.trans (Cr.of_same rfl rfl rfl rfl rfl rfl rfl)) (fun h => by simp [setL2] at h) e3 ?_
+          have hle := hw'.pos_le hin
+          rw [e1, e4] at hle
           unfold mu; simp [setL2, hseq, e1, e4]; omega
 
 end XzVerif.Lzma2
